@@ -31,6 +31,23 @@ def load_contracts():
     return mods
 
 
+def mod_of(rel):
+    """'ipp/src/operation/cups.rs' -> 'operation::cups', 'ipp/src/lib.rs' -> 'lib'"""
+    p = rel.split('ipp/src/', 1)[-1][:-3]
+    return p.replace('/', '::')
+
+
+def norm_owner(o):
+    """weave label / source path -> the name Verus reports: no `lib::` prefix, `<T for X>::m` -> `X::m`"""
+    if not o:
+        return o
+    o = re.sub(r'<\w+ for (\w+)>', r'\1', o)
+    o = re.sub(r'trait (\w+)::', r'\1::', o)
+    if o.startswith('lib::'):
+        o = o[5:]
+    return o
+
+
 class Woven:
     def __init__(self):
         self.root = None
@@ -85,7 +102,7 @@ def weave_tree(dst, contracts=None, extra_ops=None):
             raise Inconclusive(f'anchor lost: {rel}: {e}')
         try:
             src = Source(rel, text)
-            modname = os.path.basename(rel)[:-3]
+            modname = mod_of(rel)
             wv = apply_contracts(src, ops, modname)
             woven, spans, segs = wv.render()
         except (AnchorLost, LexError) as e:
@@ -243,9 +260,10 @@ def classify(woven, res):
                 loc = woven.locate(rel, char_span(woven, rel, sp)[0])
                 if loc[0] == 'src':
                     fnn = enclosing_fn(woven, rel, loc[1])
-                    owner = f"{os.path.basename(rel)[:-3]}::{fnn}" if fnn else None
+                    owner = f"{mod_of(rel)}::{fnn}" if fnn else None
             else:
                 owner = 'ghost:' + prim['file']
+        owner = norm_owner(owner)
         clause = next((x for x in descr if not x['primary'] and x['kind'] in ('contract', 'ghost')), None)
         kind = ('ensures' if 'postcondition' in msg else 'pre' if 'precondition' in msg else
                 'invariant' if 'invariant' in msg else 'assert' if 'assert' in msg else
